@@ -211,3 +211,32 @@ package keeper
 //@ ensures [payer_record_and_fee_total_grow_by_the_same_amount] err == nil ==> paid(msg.DisputeId, accbytes(msg.Creator)) - old(paid(msg.DisputeId, accbytes(msg.Creator))) == dispute.Disputes[msg.DisputeId].FeeTotal - old(dispute.Disputes[msg.DisputeId].FeeTotal)
 //@ ensures [other_payers_records_untouched] forall i int :: forall a bytes :: !(i == msg.DisputeId && a == accbytes(msg.Creator)) ==> (has(dispute.DisputeFeePayer, pair(i, a)) <==> old(has(dispute.DisputeFeePayer, pair(i, a)))) && dispute.DisputeFeePayer[pair(i, a)] == old(dispute.DisputeFeePayer[pair(i, a)])
 //@ ensures [fee_total_never_exceeds_the_slash_amount] err == nil && old(dispute.Disputes[msg.DisputeId].FeeTotal) <= old(dispute.Disputes[msg.DisputeId].SlashAmount) ==> dispute.Disputes[msg.DisputeId].FeeTotal <= dispute.Disputes[msg.DisputeId].SlashAmount
+
+// ---- tallying a round (C12) ----
+// Each of the four groups (team, users, reporters, token holders) weighs 25 %; a group's part is Ratio(group total,
+// votes cast). teampart: 25_000000 when the team address has voted in this round.
+//@ define teampart(i) = has(dispute.Voter, pair(i, bytes(ret(GetTeamAddress, 0)))) ? 25000000 : 0
+
+//@ func (k Keeper).TallyVote(ctx, id) (err)
+//@ requires [snapshot_totals_non_negative] forall h bytes :: has(dispute.BlockInfo, h) ==> dispute.BlockInfo[h].TotalReporterPower >= 0 && dispute.BlockInfo[h].TotalUserTips >= 0
+//@ requires [supply_non_negative] bank.supply >= 0
+//@ modifies dispute.Disputes, dispute.Votes
+//@ ensures [a_tallied_vote_is_not_tallied_again] old(has(dispute.Votes, id)) && old(dispute.Votes[id].VoteResult) != types.VoteResult_NO_TALLY ==> err != nil && nothing_written()
+//@ ensures [without_quorum_nothing_is_decided_before_the_voting_period_ends] err == nil && old(dispute.Votes[id].VoteEnd) >= blocktime(ctx) ==> called(UpdateDispute) && arg(UpdateDispute, quorum)
+//@ ensures [quorum_is_51_percent_of_the_group_weights] called(UpdateDispute) ==> (arg(UpdateDispute, quorum) <==> teampart(id) + retsum(Ratio, 0) >= 51000000)
+//@ ensures [a_quorum_result_closes_the_dispute_for_execution] err == nil && called(UpdateDispute) && arg(UpdateDispute, quorum) ==> dispute.Disputes[id].DisputeStatus == types.Resolved && !dispute.Disputes[id].Open && dispute.Disputes[id].PendingExecution
+//@ ensures [only_this_round_is_written] forall j int :: j != id ==> dispute.Votes[j] == old(dispute.Votes[j]) && dispute.Disputes[j] == old(dispute.Disputes[j])
+
+// ---- casting a vote (C12) ----
+//@ func (k msgServer).Vote(goCtx, msg) (resp, err)
+//@ requires [msg_present] msg != nil
+//@ requires [votes_are_stored_under_their_id] forall i int :: has(dispute.Votes, i) ==> dispute.Votes[i].Id == i
+//@ requires [snapshot_totals_non_negative] forall h bytes :: has(dispute.BlockInfo, h) ==> dispute.BlockInfo[h].TotalReporterPower >= 0 && dispute.BlockInfo[h].TotalUserTips >= 0
+//@ requires [supply_non_negative] bank.supply >= 0
+//@ modifies dispute.*, H_*, A_*
+//@ ensures [one_vote_per_address_and_round] old(has(dispute.Voter, pair(msg.Id, accbytes(msg.Voter)))) ==> err != nil && nothing_written()
+//@ ensures [only_while_the_round_is_in_voting] !old(has(dispute.Disputes, msg.Id)) || old(dispute.Disputes[msg.Id].DisputeStatus) != types.Voting ==> err != nil && nothing_written()
+//@ ensures [not_after_the_voting_period_has_ended] old(has(dispute.Votes, msg.Id)) && old(dispute.Votes[msg.Id].VoteEnd) < blocktime(goCtx) ==> err != nil && nothing_written()
+//@ ensures [weights_are_taken_as_of_the_disputes_block] err == nil ==> arg(SetVoterTips, blockNumber) == old(dispute.Disputes[msg.Id].BlockNumber) && arg(SetVoterReporterStake, blockNumber) == old(dispute.Disputes[msg.Id].BlockNumber) && arg(SetTokenholderVote, blockNumber) == old(dispute.Disputes[msg.Id].BlockNumber)
+//@ ensures [the_vote_is_recorded_for_the_voter_with_its_choice] err == nil ==> has(dispute.Voter, pair(msg.Id, accbytes(msg.Voter))) && dispute.Voter[pair(msg.Id, accbytes(msg.Voter))].Vote == msg.Vote
+//@ ensures [a_voter_without_any_weight_is_rejected] err == nil ==> dispute.Voter[pair(msg.Id, accbytes(msg.Voter))].VoterPower != 0
